@@ -8,6 +8,7 @@ recursion from the initial state.
 import numpy as np
 
 from pdv import configs, extract, poly, util
+from pdv.refmodel import floors as floors_mod
 from pdv.refmodel import kalman, mpl
 
 ID = "C02"
@@ -88,6 +89,17 @@ def _mean_dev(m, m_ref, Pdiag, noise, tol):
         return float("inf")
     den = tol * (np.abs(m_ref) + np.sqrt(np.maximum(Pdiag, 0.0))) + np.asarray(noise, float) + 1e-300
     return float(np.max(np.abs(m - m_ref) / den))
+
+
+def _cov_dev(P, P_ref, floor):
+    """max |dP_ij| / (s_i s_j) with s = max(sqrt(P_ref_ii), floor): exactly observed coefficients have reference variance
+    ~0 and repo variance ~1e-34 (rounding), which must not be divided by itself."""
+    P, P_ref = np.asarray(P, float), np.asarray(P_ref, float)
+    if not np.all(np.isfinite(P)):
+        return float("inf")
+    sd = np.maximum(np.sqrt(np.maximum(np.diag(P_ref), 0.0)), floor)
+    den = np.outer(sd, sd)
+    return float(np.max(np.abs(P - P_ref) / np.where(den > 0, den, 1.0)))
 
 
 def _divide_scale(P, s, n, d):
@@ -174,7 +186,10 @@ def run_case(case):
             s_noise = np.broadcast_to(np.asarray(st["sigma_noise"], float), (d,))
             rel = float(np.max(s_noise / np.maximum(s_ref, 1e-300)))
         em = _mean_dev(means[k], m_ref, np.diag(P_ref), st["mean_noise"], tol_t + rel)
-        ec = util.scaled_cov_err(unit[k], P_ref) / (1.0 + 3 * rel / tol_t)
+        # the update P - K S K^T carries rounding of size eps * predicted variance: an exactly observed coefficient has
+        # reference variance 0 and repo variance ~eps * P_pred_ii -> floor the denominators at 1e-7 * predicted std
+        fl = 1e-7 * np.sqrt(np.maximum(np.diag(mpl.F(st["P_pred"])), 0.0))
+        ec = _cov_dev(unit[k], P_ref, fl) / (1.0 + 3 * rel / tol_t)
         if rel > 0.05:
             obs["scale_noise_dominated"] = 1
             ec = 0.0
@@ -223,7 +238,11 @@ def run_case(case):
             P_ref = kalman.scale_cov(P_ref, final, n, d)
         m_ref, P_ref = mpl.F(ref[k]["m"]), mpl.F(P_ref)
         em = _mean_dev(means[k], m_ref, np.diag(P_ref), 3 * noise_acc, tol_e + rel_dyn)
-        ec = util.scaled_cov_err(covs[k], P_ref) / (1.0 + 3 * (rel_mle + rel_dyn) / tol_e)
+        Ppred = ref[k]["P_pred"] if k >= 1 else ref[0]["P"]
+        if cal == "mle" and k >= 1:
+            Ppred = kalman.scale_cov(Ppred, final, n, d)
+        fl = 1e-7 * np.sqrt(np.maximum(np.diag(mpl.F(Ppred)), 0.0))
+        ec = _cov_dev(covs[k], P_ref, fl) / (1.0 + 3 * (rel_mle + rel_dyn) / tol_e)
         if rel_mle + rel_dyn > 0.05:
             # the calibrated scale itself is rounding noise (tiny residuals at high order / small steps): the
             # calibrated covariance cannot be compared; the unit-scale covariance is judged per transition above
